@@ -142,9 +142,12 @@ def prepare(meta, workdir):
 REACH_RE = re.compile(r"KANI_CHECK_ID")
 
 
-def solve(binary, unwind, timeout, mem_gb, trace=True, slice_formula=True):
+def solve(binary, unwind, timeout, mem_gb, trace=True, slice_formula=True, fs=None):
     """run CBMC; returns dict(status, checks, failed_checks[], covers, covers_sat, values, time_s, ...)"""
     flags = [f for f in CBMC_FLAGS if slice_formula or f != "--slice-formula"]
+    if fs is not None:
+        i = flags.index("--max-field-sensitivity-array-size")
+        flags[i + 1] = str(fs)
     cmd = [CBMC] + flags + ["--unwind", str(unwind), binary, "--json-ui"]
     if trace:
         cmd.append("--trace")
